@@ -696,6 +696,7 @@ class _matrix(object):
             if key[0] >= value:
                 del self.__data[key]
         self.__rows = value
+        self._LU = None
 
     rows = property(__getrows, __setrows, doc='number of rows')
 
@@ -707,6 +708,7 @@ class _matrix(object):
             if key[1] >= value:
                 del self.__data[key]
         self.__cols = value
+        self._LU = None
 
     cols = property(__getcols, __setcols, doc='number of columns')
 
